@@ -27,6 +27,7 @@ package processor
 //@   end
 //@   ensures forall a int, b int :: 0 <= a && a < b && b < len(ops) ==> !opLess(ops[b], ops[a])
 //@   ensures allNonNil(ops)
+//@   ensures old(saneOps(ops)) ==> saneOps(ops)
 //@   modifies elems(ops)
 //
 //@ func isOpWithTxnGreaterThanOrUnpublished
@@ -49,11 +50,6 @@ package processor
 
 // ---- C02 / C01: published creates are tried before unpublished ones, each group in chronological order ----
 //
-//@ func (*OperationProcessor).Resolve
-//@   closure 1
-//@     relation pubFirst over createOps
-//@     requires 0 <= i && i < len(createOps) && 0 <= j && j < len(createOps) && allNonNil(createOps)
-//@   end
 //
 // ---- C04 / C06: selection helpers ----
 //
@@ -63,18 +59,20 @@ package processor
 //@ func getOpsWithTxnGreaterThanOrUnpublished
 //@   requires allNonNil(ops)
 //@   loop 1
-//@     invariant allNonNil(ops) && len(selection) <= _k
+//@     invariant allNonNil(ops) && len(selection) <= _k && (old(saneOps(ops)) ==> saneOps(ops)) && (old(pAllOfType(ops, operation.TypeUpdate)) ==> pAllOfType(ops, operation.TypeUpdate))
 //@     invariant forall p int :: 0 <= p && p < len(selection) ==> 0 <= src(selection, p) && src(selection, p) < _k && selection[p] == ops[src(selection, p)] && afterOrUnpublished(ops[src(selection, p)], txnTime, txnNumber) && dst(selection, src(selection, p)) == p
 //@     invariant forall i int :: 0 <= i && i < _k && afterOrUnpublished(ops[i], txnTime, txnNumber) ==> 0 <= dst(selection, i) && dst(selection, i) < len(selection) && src(selection, dst(selection, i)) == i
 //@     invariant forall p int, q int :: 0 <= p && p < q && q < len(selection) ==> src(selection, p) < src(selection, q)
 //@   ensures forall p int :: 0 <= p && p < len(result) ==> result[p] != nil && afterOrUnpublished(result[p], txnTime, txnNumber)
 //@   ensures forall i int :: 0 <= i && i < len(ops) && afterOrUnpublished(ops[i], txnTime, txnNumber) ==> (exists p int :: 0 <= p && p < len(result) && result[p] == ops[i])
 //@   ensures len(result) <= len(ops)
+//@   ensures old(saneOps(ops)) ==> saneOps(result)
+//@   ensures old(pAllOfType(ops, operation.TypeUpdate)) ==> pAllOfType(result, operation.TypeUpdate)
 //
 //@ func filterOpsByVersionTime
 //@   requires allNonNil(ops)
 //@   loop 1
-//@     invariant allNonNil(ops) && len(filteredOps) <= _k
+//@     invariant allNonNil(ops) && len(filteredOps) <= _k && (old(saneOps(ops)) ==> saneOps(ops))
 //@     invariant forall p int :: 0 <= p && p < len(filteredOps) ==> 0 <= src(filteredOps, p) && src(filteredOps, p) < _k && filteredOps[p] == ops[src(filteredOps, p)] && ops[src(filteredOps, p)].TransactionTime <= uint64(unixOf(timeStr)) && dst(filteredOps, src(filteredOps, p)) == p
 //@     invariant forall i int :: 0 <= i && i < _k && ops[i].TransactionTime <= uint64(unixOf(timeStr)) ==> 0 <= dst(filteredOps, i) && dst(filteredOps, i) < len(filteredOps) && src(filteredOps, dst(filteredOps, i)) == i
 //@     invariant forall p int, q int :: 0 <= p && p < q && q < len(filteredOps) ==> src(filteredOps, p) < src(filteredOps, q)
@@ -82,3 +80,173 @@ package processor
 //@   ensures err == nil ==> (forall p int :: 0 <= p && p < len(r0) ==> r0[p] != nil && r0[p].TransactionTime <= uint64(unixOf(timeStr)))
 //@   ensures err == nil ==> (forall i int :: 0 <= i && i < len(ops) && ops[i].TransactionTime <= uint64(unixOf(timeStr)) ==> (exists p int :: 0 <= p && p < len(r0) && r0[p] == ops[i]))
 //@   ensures err != nil ==> !parseOK(timeStr) || (forall i int :: 0 <= i && i < len(ops) ==> !(ops[i].TransactionTime <= uint64(unixOf(timeStr))))
+//@   ensures err == nil && old(saneOps(ops)) ==> saneOps(r0) && len(r0) <= len(ops)
+
+// ---- C01 / C03 / C12: the commitment chain ----
+//
+// keyOf(op): the commitment recomputed from the reveal value of op's request (what op consumes).
+//@ spec opParser(s *OperationProcessor, op *operation.AnchoredOperation) protocol.OperationParser { parserOf(verOf(s.pc, op.ProtocolVersion)) }
+//@ spec opApplier(s *OperationProcessor, op *operation.AnchoredOperation) protocol.OperationApplier { applierOf(verOf(s.pc, op.ProtocolVersion)) }
+//@ spec hasKey(s *OperationProcessor, op *operation.AnchoredOperation) bool {
+//@     op.Type != operation.TypeCreate && verOK(s.pc, op.ProtocolVersion) && revealOK(opParser(s, op), op.OperationRequest) && rvOK(revealOf(opParser(s, op), op.OperationRequest)) }
+//@ spec keyOf(s *OperationProcessor, op *operation.AnchoredOperation) string { commitOfReveal(revealOf(opParser(s, op), op.OperationRequest)) }
+//@ spec hasNext(s *OperationProcessor, op *operation.AnchoredOperation) bool { verOK(s.pc, op.ProtocolVersion) && nextOK(opParser(s, op), op.OperationRequest) }
+//@ spec nextC(s *OperationProcessor, op *operation.AnchoredOperation) string { nextOf(opParser(s, op), op.OperationRequest) }
+//@ spec saneOps(ops []*operation.AnchoredOperation) bool { forall q int :: 0 <= q && q < len(ops) ==> ops[q] != nil && ops[q].TransactionTime < 4611686018427387904 }
+//@ spec procOK(s *OperationProcessor) bool { s != nil && s.pc != nil && s.store != nil && s.unpublishedOperationStore != nil && s.logger != nil }
+//
+// passes(i): candidate i is applicable for the commitment curr given the commitments consumed so far.
+//@ spec passes(s *OperationProcessor, op *operation.AnchoredOperation, rm *protocol.ResolutionModel, curr string, done map[string]bool) bool {
+//@     hasNext(s, op) && nextC(s, op) != curr && !(nextC(s, op) != "" && nextC(s, op) in done) && applyOK(opApplier(s, op), op, rm) }
+//
+//@ func getUpdateCommitment
+//@   requires rm != nil
+//@   ensures result == rm.UpdateCommitment
+//@ func getRecoveryCommitment
+//@   requires rm != nil
+//@   ensures result == rm.RecoveryCommitment
+//
+//@ func (*OperationProcessor).getRevealValue
+//@   requires procOK(s) && op != nil
+//@   ensures (err == nil) == (op.Type != operation.TypeCreate && verOK(s.pc, op.ProtocolVersion) && revealOK(opParser(s, op), op.OperationRequest))
+//@   ensures err == nil ==> r0 == revealOf(opParser(s, op), op.OperationRequest)
+//
+//@ func (*OperationProcessor).getCommitment
+//@   requires procOK(s) && op != nil
+//@   ensures (err == nil) == hasNext(s, op)
+//@   ensures err == nil ==> r0 == nextC(s, op)
+//
+//@ func (*OperationProcessor).applyOperation
+//@   requires procOK(s) && op != nil && rm != nil && op.TransactionTime < 4611686018427387904
+//@   ensures (err == nil) == (verOK(s.pc, op.ProtocolVersion) && applyOK(opApplier(s, op), op, rm))
+//@   ensures err == nil ==> r0 != nil && allocated(r0) && applied(r0, opApplier(s, op), op, rm)
+//@   ensures err == nil && op.Type == operation.TypeUpdate ==> authUpdate(op.OperationRequest) && r0.RecoveryCommitment == rm.RecoveryCommitment && !r0.Deactivated
+//@   ensures err == nil && op.Type == operation.TypeRecover ==> authRecover(op.OperationRequest) && !r0.Deactivated
+//@   ensures err == nil && op.Type == operation.TypeDeactivate ==> authDeactivate(op.OperationRequest) && r0.Deactivated && r0.UpdateCommitment == "" && r0.RecoveryCommitment == ""
+//@   ensures err == nil && op.Type == operation.TypeCreate ==> rm.Doc == nil && !r0.Deactivated
+//@   ensures err == nil && op.Type != operation.TypeCreate ==> rm.Doc != nil
+//@   ensures err != nil ==> r0 == nil
+//
+// first applicable candidate wins (C01 iii, C02, C12)
+//@ func (*OperationProcessor).applyFirstValidOperation
+//@   requires procOK(s) && rm != nil && saneOps(ops)
+//@   requires forall q int :: 0 <= q && q < len(ops) ==> hasKey(s, ops[q]) && keyOf(s, ops[q]) == currCommitment
+//@   loop 1
+//@     invariant saneOps(ops)
+//@     invariant forall q int :: 0 <= q && q < _k ==> !(verOK(s.pc, ops[q].ProtocolVersion) && passes(s, ops[q], rm, currCommitment, processedCommitments))
+//@   ensures result == nil ==> (forall q int :: 0 <= q && q < len(ops) ==> !(verOK(s.pc, ops[q].ProtocolVersion) && passes(s, ops[q], rm, currCommitment, processedCommitments)))
+//@   ensures result != nil ==> (exists k int :: 0 <= k && k < len(ops) && verOK(s.pc, ops[k].ProtocolVersion) && passes(s, ops[k], rm, currCommitment, processedCommitments) && applied(result, opApplier(s, ops[k]), ops[k], rm) && (forall q int :: 0 <= q && q < k ==> !(verOK(s.pc, ops[q].ProtocolVersion) && passes(s, ops[q], rm, currCommitment, processedCommitments))))
+//@   ensures result != nil ==> allocated(result)
+//@   ensures result != nil && (forall q int :: 0 <= q && q < len(ops) ==> ops[q].Type == operation.TypeUpdate) ==> result.RecoveryCommitment == rm.RecoveryCommitment && !result.Deactivated && rm.Doc != nil
+//@   ensures result != nil && (forall q int :: 0 <= q && q < len(ops) ==> ops[q].Type == operation.TypeRecover || ops[q].Type == operation.TypeDeactivate) ==> rm.Doc != nil && (result.Deactivated ==> result.UpdateCommitment == "" && result.RecoveryCommitment == "")
+//
+//@ func (*OperationProcessor).applyFirstValidCreateOperation
+//@   requires procOK(s) && rm != nil && saneOps(createOps)
+//@   loop 1
+//@     invariant saneOps(createOps)
+//@     invariant forall q int :: 0 <= q && q < _k ==> !(verOK(s.pc, createOps[q].ProtocolVersion) && applyOK(opApplier(s, createOps[q]), createOps[q], rm))
+//@   ensures result == nil ==> (forall q int :: 0 <= q && q < len(createOps) ==> !(verOK(s.pc, createOps[q].ProtocolVersion) && applyOK(opApplier(s, createOps[q]), createOps[q], rm)))
+//@   ensures result != nil ==> (exists k int :: 0 <= k && k < len(createOps) && verOK(s.pc, createOps[k].ProtocolVersion) && applyOK(opApplier(s, createOps[k]), createOps[k], rm) && applied(result, opApplier(s, createOps[k]), createOps[k], rm) && (forall q int :: 0 <= q && q < k ==> !(verOK(s.pc, createOps[q].ProtocolVersion) && applyOK(opApplier(s, createOps[q]), createOps[q], rm))))
+//@   ensures result != nil ==> allocated(result)
+//@   ensures result != nil && rm.Doc == nil ==> !result.Deactivated
+
+//@ spec pAllOfType(ops []*operation.AnchoredOperation, t operation.Type) bool { forall q int :: 0 <= q && q < len(ops) ==> ops[q].Type == t }
+//@ spec pAllFull(ops []*operation.AnchoredOperation) bool { forall q int :: 0 <= q && q < len(ops) ==> ops[q].Type == operation.TypeRecover || ops[q].Type == operation.TypeDeactivate }
+// candidates are grouped under the commitment recomputed from their own reveal value (C01 i)
+//@ func (*OperationProcessor).createOperationHashMap
+//@   requires procOK(s) && saneOps(ops)
+//@   loop 1
+//@     invariant saneOps(ops) && opMap != nil && fresh(opMap)
+//@     invariant forall c string, p int :: c in opMap && 0 <= p && p < len(opMap[c]) ==> opMap[c][p] != nil && opMap[c][p].TransactionTime < 4611686018427387904 && hasKey(s, opMap[c][p]) && keyOf(s, opMap[c][p]) == c
+//@     invariant !("" in opMap)
+//@     invariant forall c string, p int :: c in opMap && 0 <= p && p < len(opMap[c]) ==> (exists q int :: 0 <= q && q < _k && opMap[c][p] == ops[q])
+//@     invariant pAllOfType(ops, operation.TypeUpdate) ==> (forall c string, p int :: c in opMap && 0 <= p && p < len(opMap[c]) ==> opMap[c][p].Type == operation.TypeUpdate)
+//@     invariant pAllFull(ops) ==> (forall c string, p int :: c in opMap && 0 <= p && p < len(opMap[c]) ==> opMap[c][p].Type == operation.TypeRecover || opMap[c][p].Type == operation.TypeDeactivate)
+//@     invariant forall c string :: c in opMap ==> localArr(opMap[c]) && allocated(opMap[c])
+//@     invariant forall c string, d string :: c in opMap && d in opMap && c != d && arrOf(opMap[c]) != 0 ==> arrOf(opMap[c]) != arrOf(opMap[d])
+//@   ensures result != nil && fresh(result) && !("" in result)
+//@   ensures forall c string, p int :: c in result && 0 <= p && p < len(result[c]) ==> result[c][p] != nil && result[c][p].TransactionTime < 4611686018427387904 && hasKey(s, result[c][p]) && keyOf(s, result[c][p]) == c
+//@   ensures forall c string, p int :: c in result && 0 <= p && p < len(result[c]) ==> (exists q int :: 0 <= q && q < len(ops) && result[c][p] == ops[q])
+//@   ensures pAllOfType(ops, operation.TypeUpdate) ==> (forall c string, p int :: c in result && 0 <= p && p < len(result[c]) ==> result[c][p].Type == operation.TypeUpdate)
+//@   ensures pAllFull(ops) ==> (forall c string, p int :: c in result && 0 <= p && p < len(result[c]) ==> result[c][p].Type == operation.TypeRecover || result[c][p].Type == operation.TypeDeactivate)
+//
+//@ func splitOperations
+//@   requires saneOps(ops)
+//@   loop 1
+//@     invariant saneOps(ops)
+//@     invariant forall p int :: 0 <= p && p < len(createOps) ==> createOps[p] != nil && createOps[p].TransactionTime < 4611686018427387904 && createOps[p].Type == operation.TypeCreate
+//@     invariant forall p int :: 0 <= p && p < len(updateOps) ==> updateOps[p] != nil && updateOps[p].TransactionTime < 4611686018427387904 && updateOps[p].Type == operation.TypeUpdate
+//@     invariant forall p int :: 0 <= p && p < len(fullOps) ==> fullOps[p] != nil && fullOps[p].TransactionTime < 4611686018427387904 && (fullOps[p].Type == operation.TypeRecover || fullOps[p].Type == operation.TypeDeactivate)
+//@   ensures saneOps(createOps) && saneOps(updateOps) && saneOps(fullOps)
+//@   ensures arrOf(createOps) == 0 || (arrOf(createOps) != arrOf(updateOps) && arrOf(createOps) != arrOf(fullOps) && arrOf(createOps) != arrOf(ops))
+//@   ensures forall p int :: 0 <= p && p < len(createOps) ==> createOps[p].Type == operation.TypeCreate
+//@   ensures forall p int :: 0 <= p && p < len(updateOps) ==> updateOps[p].Type == operation.TypeUpdate
+//@   ensures forall p int :: 0 <= p && p < len(fullOps) ==> fullOps[p].Type == operation.TypeRecover || fullOps[p].Type == operation.TypeDeactivate
+
+// the chain: every step applies the first applicable candidate among the operations whose recomputed
+// commitment equals the commitment currently in force
+//@ spec chainC(f fnc, st *protocol.ResolutionModel) string { cond(f == fnval(getUpdateCommitment), st.UpdateCommitment, st.RecoveryCommitment) }
+//
+//@ func (*OperationProcessor).applyOperations
+//@   requires procOK(s) && rm != nil && allocated(rm) && saneOps(ops) && len(ops) > 0
+//@   requires commitmentFnc == fnval(getUpdateCommitment) || commitmentFnc == fnval(getRecoveryCommitment)
+//@   requires commitmentFnc == fnval(getUpdateCommitment) ==> pAllOfType(ops, operation.TypeUpdate) && !rm.Deactivated
+//@   requires commitmentFnc == fnval(getRecoveryCommitment) ==> pAllFull(ops) && !rm.Deactivated
+//@   requires commitmentFnc == fnval(getUpdateCommitment) ==> (forall q int :: 0 <= q && q < len(ops) ==> afterOrUnpublished(ops[q], rm.LastOperationTransactionTime, rm.LastOperationTransactionNumber))
+//@   loop 1
+//@     invariant state != nil && allocated(state) && commitmentMap != nil
+//@     invariant c == chainC(commitmentFnc, state)
+//@     invariant ok == (c in opMap) && (ok ==> commitmentOps == opMap[c])
+//@     invariant commitmentFnc == fnval(getUpdateCommitment) ==> state.RecoveryCommitment == rm.RecoveryCommitment && !state.Deactivated
+//@     invariant state.Deactivated ==> state.UpdateCommitment == "" && state.RecoveryCommitment == ""
+//@   ensures result != nil && allocated(result)
+//@   ensures commitmentFnc == fnval(getUpdateCommitment) ==> result.RecoveryCommitment == rm.RecoveryCommitment && !result.Deactivated
+//@   ensures result.Deactivated ==> result.UpdateCommitment == "" && result.RecoveryCommitment == ""
+
+// ---- stores (assumed): operations handed out are non-nil and carry sane anchoring times ----
+//@ iface OperationStoreClient.Get
+//@   results ops, err
+//@   ensures saneOps(ops)
+//@ iface unpublishedOperationStore.Get
+//@   results ops, err
+//@   ensures saneOps(ops)
+//
+//@ func getCanonicalMap
+//@   requires saneOps(published)
+//@   ensures result != nil && fresh(result)
+//
+//@ func (*OperationProcessor).filterOps
+//@   requires procOK(s) && saneOps(ops)
+//@   ensures err == nil ==> saneOps(r0) && len(r0) <= len(ops)
+//@   ensures err == nil && opts.VersionID == "" && opts.VersionTime == "" ==> r0 == ops
+//@   ensures err == nil && opts.VersionID != "" ==> len(r0) >= 1 && sameSlice(r0, ops) && ops[len(r0)-1].CanonicalReference == opts.VersionID && (forall q int :: 0 <= q && q < len(r0)-1 ==> ops[q].CanonicalReference != opts.VersionID)
+//@   ensures err == nil && opts.VersionID == "" && opts.VersionTime != "" ==> (forall p int :: 0 <= p && p < len(r0) ==> r0[p].TransactionTime <= uint64(unixOf(opts.VersionTime)))
+//
+//@ func (*OperationProcessor).applyResolutionOptions
+//@   requires procOK(s) && saneOps(published) && saneOps(unpublished) && saneOps(opts.AdditionalOperations)
+//@   requires arrOf(published) == 0 || arrOf(published) != arrOf(unpublished)
+//@   loop 1
+//@     invariant saneOps(published) && saneOps(unpublished) && saneOps(opts.AdditionalOperations)
+//@     invariant allocated(published) && allocated(unpublished) && (arrOf(published) == 0 || arrOf(published) != arrOf(unpublished))
+//@   loop 2
+//@     invariant saneOps(filteredOps) && saneOps(filteredPublishedOps) && saneOps(filteredUnpublishedOps)
+//@   ensures err == nil ==> saneOps(r0) && saneOps(r1) && saneOps(r2)
+//@   modifies elems(published), elems(unpublished)
+//
+//@ func (*OperationProcessor).processOperations
+//@   requires procOK(s) && saneOps(publishedOps) && saneOps(unpublishedOps)
+//@   requires arrOf(publishedOps) == 0 || arrOf(publishedOps) != arrOf(unpublishedOps)
+//@   ensures err == nil ==> saneOps(r0) && saneOps(r1) && saneOps(r2)
+//@   modifies elems(publishedOps), elems(unpublishedOps)
+
+// ---- C04: deactivation is terminal; the update chain never runs on a deactivated DID ----
+//@ func (*OperationProcessor).Resolve
+//@   closure 1
+//@     relation pubFirst over createOps
+//@     requires 0 <= i && i < len(createOps) && 0 <= j && j < len(createOps) && allNonNil(createOps)
+//@   end
+//@   requires procOK(s)
+//@   ensures err == nil ==> r0 != nil
+//@   ensures err == nil && r0.Deactivated ==> r0.UpdateCommitment == "" && r0.RecoveryCommitment == ""
+//@   ensures err != nil ==> r0 == nil
+//@   modifies *
